@@ -20,6 +20,7 @@ import A10Verif.Lemmas.OpInv
 import A10Verif.Model.Life
 import A10Verif.Lemmas.LifeRefine
 import A10Verif.Props.C04
+import A10Verif.Props.C02
 
 namespace A10.OpSys
 open A10
@@ -176,6 +177,62 @@ theorem C06_system_ring_drop_reclaims {s : Sys} (hr : Reachable s) (hl : s.ringL
     ∀ (i : Nat) (o : Op), (stepMv s Mv.rdrop).ops[i]? = some o → o.futLive = false →
       o.boxLive = false ∧ o.frees = 1 ∧ o.resInit = false ∧ o.resDrops = 1 :=
   life_ring_drop_reclaims hr hl
+
+theorem foldl_upd1_dropped (l : List Cqe) : ∀ (o : Op), o.status = .dropped →
+    (l.foldl upd1 o).status = .dropped ∧ (l.foldl upd1 o).futLive = o.futLive ∧
+    (l.foldl upd1 o).frees = o.frees + (l.filter (fun c => !fMore c.flags)).length ∧
+    (l.foldl upd1 o).resDrops = o.resDrops + (l.filter (fun c => !fMore c.flags)).length := by
+  induction l with
+  | nil => intro o h; simp [h]
+  | cons c l ih =>
+    intro o h
+    have hu : (upd1 o c).status = .dropped ∧ (upd1 o c).futLive = o.futLive ∧
+        (upd1 o c).frees = o.frees + (if fMore c.flags then 0 else 1) ∧
+        (upd1 o c).resDrops = o.resDrops + (if fMore c.flags then 0 else 1) := by
+      cases o with
+      | mk multi status waker boxLive resInit futLive frees resDrops =>
+      simp at h; subst h
+      cases hm : fMore c.flags <;> simp [upd1, Op.update, hm]
+    obtain ⟨h1, h2, h3, h4⟩ := hu
+    obtain ⟨i1, i2, i3, i4⟩ := ih (upd1 o c) h1
+    simp only [List.foldl_cons]
+    refine ⟨i1, i2.trans h2, ?_, ?_⟩
+    · rw [i3, h3]; cases hm : fMore c.flags <;> simp [List.filter, hm] <;> omega
+    · rw [i4, h4]; cases hm : fMore c.flags <;> simp [List.filter, hm] <;> omega
+
+/-- **Reclaimed by exactly its own final completion, whatever surrounds it.** For an operation
+whose future was dropped while it was running, after the completion loop has processed ANY list of
+completions the state has been released once per FINAL completion addressed to that operation —
+completions of other operations, its own non-final (`F_MORE`) completions, bookkeeping completions
+(the answer to its cancel request among them) and `F_SKIP` entries release nothing. With the
+kernel's contract (exactly one final completion per submission) that is exactly once, at that
+completion; and nothing else in the batch can release it early or a second time. -/
+theorem C06_batch_reclaims_by_own_final (cs : List Cqe) (s : Sys) (a : Acc) (i : Nat) (o : Op)
+    (ho : s.ops[i]? = some o) (hd : o.status = .dropped) :
+    ∃ o', (processAll s a cs).1.ops[i]? = some o' ∧ o'.status = .dropped ∧
+      o'.frees = o.frees +
+        (cs.filter (fun c => addressed i c && !fMore c.flags)).length ∧
+      o'.resDrops = o.resDrops +
+        (cs.filter (fun c => addressed i c && !fMore c.flags)).length := by
+  refine ⟨(cs.filter (addressed i)).foldl upd1 o, ?_, ?_⟩
+  · rw [C02_own_completions_only, ho]; rfl
+  · obtain ⟨h1, _, h3, h4⟩ := foldl_upd1_dropped (cs.filter (addressed i)) o hd
+    rw [List.filter_filter] at h3 h4
+    have hf : (fun a : Cqe => !fMore a.flags && addressed i a) =
+        (fun c : Cqe => addressed i c && !fMore c.flags) := by
+      funext c; exact Bool.and_comm _ _
+    rw [hf] at h3 h4
+    exact ⟨h1, h3, h4⟩
+
+/-- Non-vacuity: operation 0 dropped while running; a batch with another operation's final
+completion, operation 0's own non-final one, the cancel answer, then operation 0's final one:
+released exactly once. -/
+example :
+    let s : Sys := { ops := [{ multi := true, status := .dropped, futLive := false },
+                             { multi := false, status := .running (.single ⟨0, 0⟩) }] }
+    let cs : List Cqe := [⟨.op 1, 9, 0⟩, ⟨.op 0, 5, 2⟩, ⟨.reserved 2, 0, 0⟩, ⟨.op 0, -125, 0⟩]
+    ((processAll s {} cs).1.ops.map (·.frees)) = [1, 0] ∧
+    (cs.filter (fun c => addressed 0 c && !fMore c.flags)).length = 1 := by decide
 
 end A10.Life
 
